@@ -1,5 +1,7 @@
 // Engine binary for the instruction-level checks.  Talks to libimpl.so / libref.so through isa_abi.h only.
 #include "c01_diff.h"
+#include "c03_alu.h"
+#include "c04_mulshift.h"
 
 int main(int argc, char** argv) {
     verif::Args args = verif::Args::Parse(argc, argv);
@@ -11,9 +13,17 @@ int main(int argc, char** argv) {
             return c01::RunReplay(args.replay, res);
         if (args.replay.rfind("c01 gen", 0) == 0)
             return c01::RunGenReplay(args.replay, res);
+        if (args.replay.rfind("c04", 0) == 0)
+            return c04::RunReplay(args.replay, res);
+        if (args.replay.rfind("c03", 0) == 0)
+            return c03::RunReplay(args.replay, res);
         return 2;
     }
-    if (args.sub == "c01") {
+    if (args.sub == "c04") {
+        c04::Run(args, res);
+    } else if (args.sub == "c03") {
+        c03::Run(args, res);
+    } else if (args.sub == "c01") {
         c01::Run(args, res);
     } else {
         std::fprintf(stderr, "usage: isa c01|... [--tier t]\n");
